@@ -85,9 +85,11 @@ func (p *Program) VerifyFunc(fc *FuncContract) (res *FuncResult) {
 		v := x.havoc(prm.Type(), "p_"+prm.Name(), x.b.True)
 		if _, ok := prm.Type().Underlying().(*types.Pointer); ok {
 			x.paramRefs = append(x.paramRefs, v.T)
+			x.markOld(v.T)
 		}
 		if _, ok := prm.Type().Underlying().(*types.Slice); ok {
 			x.paramRefs = append(x.paramRefs, x.sRef(v.T))
+			x.markOld(x.sRef(v.T))
 		}
 		env.vals[prm] = v
 		vars[prm.Name()] = v
@@ -97,6 +99,7 @@ func (p *Program) VerifyFunc(fc *FuncContract) (res *FuncResult) {
 		v := x.havoc(fv.Type(), "fv_"+fv.Name(), x.b.True)
 		x.axiom(x.b.Not(x.b.Eq(v.T, x.b.Int(0))))
 		x.paramRefs = append(x.paramRefs, v.T)
+		x.markOld(v.T)
 		env.vals[fv] = v
 		// in contracts the captured variable is referred to by name (its value)
 		pt := fv.Type().(*types.Pointer).Elem()
@@ -181,7 +184,16 @@ func (p *Program) VerifyLemma(fc *FuncContract) (res *FuncResult) {
 		if t == nil {
 			panic(evalErr{fmt.Sprintf("lemma %s: cannot resolve type %s", fc.Name, prm.Type)})
 		}
-		vars[prm.Name] = x.havoc(t, "l_"+prm.Name, x.b.True)
+		v := x.havoc(t, "l_"+prm.Name, x.b.True)
+		if _, ok := t.Underlying().(*types.Pointer); ok {
+			x.paramRefs = append(x.paramRefs, v.T)
+			x.markOld(v.T)
+		}
+		if _, ok := t.Underlying().(*types.Slice); ok {
+			x.paramRefs = append(x.paramRefs, x.sRef(v.T))
+			x.markOld(x.sRef(v.T))
+		}
+		vars[prm.Name] = v
 	}
 	st := newState()
 	ce := &CEnv{x: x, st: st, old: st, vars: vars, guard: x.b.True, fc: fc, pkg: pkg}
@@ -236,4 +248,12 @@ func (r *FuncResult) Trivial(o *Obligation) bool {
 // ModelQuery returns text to append after check-sat to obtain input values.
 func (r *FuncResult) ModelQuery() string {
 	return "(get-model)\n"
+}
+
+func (x *Exec) markOld(t *smt.Term) {
+	if x.oldSet == nil {
+		x.oldSet = map[int]bool{}
+	}
+	x.oldSet[t.ID] = true
+	x.axiom(x.b.Cmp("<", t, x.b.Const("alloc0", "Int")))
 }
